@@ -170,7 +170,8 @@ def sigma_max(J):
 # matrix generation
 # ------------------------------------------------------------------------------------------------
 CATEGORIES = ["generic", "rank_def", "conflict", "antiparallel", "dup_rows", "zero_row", "zero",
-              "stationary", "tall", "one_row", "one_col", "bad_scale", "nonconflict", "dominated"]
+              "stationary", "tall", "one_row", "one_col", "bad_scale", "nonconflict", "dominated", "sparse_rows",
+              "const_col", "few_values"]
 
 
 def gen_matrix(rng: pyrandom.Random, cat=None, mmax=5, nmax=6, scale_exp=None):
@@ -214,6 +215,17 @@ def gen_matrix(rng: pyrandom.Random, cat=None, mmax=5, nmax=6, scale_exp=None):
             J[0], J[1] = J[1], J[0]
     elif cat == "nonconflict":
         J = [[abs(x) for x in r] for r in J]
+    elif cat == "sparse_rows":
+        # every row has exactly ONE non-zero entry and several rows share a column with opposite signs (a
+        # single-column Jacobian, or one followed by zero columns, is the extreme case): sparse, yet conflicting,
+        # and the Gramian is not diagonal
+        cols = [rng.randrange(max(1, (n + 1) // 2)) for _ in range(m)]
+        J = [[0] * n for _ in range(m)]
+        for i in range(m):
+            J[i][cols[i]] = rng.choice([-4, -3, -2, -1, 1, 2, 3, 4])
+        if m >= 2:
+            J[1] = [0] * n
+            J[1][cols[0]] = -J[0][cols[0]] * rng.choice([1, 2])       # a conflicting pair for sure
     elif cat == "const_col":
         # one column (sometimes every column: identical rows) is CONSTANT and non-zero: its maximum and its
         # minimum sit at the same index, every order statistic is tied
